@@ -4,6 +4,8 @@ import (
 	"go.pennock.tech/tabular/properties"
 )
 
+type vfOtherKey struct{ n int }
+
 type vfVal struct {
 	kind int // 0 string, 1 number, 2 true, 3 false, 4 null, 5 empty object
 	s    string
@@ -403,6 +405,16 @@ func verifC07(mode, cols, maxEntries, L int, symCells int) {
 			if i == 0 {
 				skip[i] = vfChoice(vfName("skip", i), 2)
 			}
+		}
+		if mode == 1 && i == 1 && vfChoice("skip-history", 2) == 1 {
+			// the final setting is reached through a history: the opposite value, an unrelated
+			// property, then the final value (or removal by setting nil)
+			t.Column(i).SetProperty(properties.Skipable, skip[i] != 1)
+			t.Column(i).SetProperty(&vfOtherKey{1}, "unrelated")
+			if skip[i] == 0 {
+				t.Column(i).SetProperty(properties.Skipable, nil)
+			}
+			vfTag("skipable-through-history")
 		}
 		switch skip[i] {
 		case 1:
